@@ -152,6 +152,7 @@ def step (s : St) (toks : List String) : St × String :=
         | ["key"] => (s, optHex c.key)
         | ["value"] => (s, optHex c.value)
         | ["delete"] =>
+          if !t.writable then (s, "err notwritable") else
           match c.rawKey with
           | none => (s, "err incompatible")
           | some k =>
